@@ -62,6 +62,12 @@ def ob_typing(ctx):
     b = K(st.record.CircularRecord(st.Seq(r2), id="m"))
     va, vb = a.is_valid(), b.is_valid()
     ctx.observe("valid", [va, vb])
+    if P.get("third"):
+        # the verdict on a further recognition site inside the vector's placeholder (IllegalSite) is part of the outcome
+        ia, ib = _illegal(st, a), _illegal(st, b)
+        ctx.observe("illegal", [ia, ib])
+        ctx.require(ia == ib, "illegal-site-verdict-depends-on-case")
+        ctx.witness("illegal-site" if ia else "no-illegal-site")
     ctx.require(va == vb, "acceptance-depends-on-case")
     ctx.witness("accepted" if va else "rejected")
     if not va:
@@ -73,6 +79,16 @@ def ob_typing(ctx):
         ctx.require(eq_upto_case(a.placeholder_sequence().seq, b.placeholder_sequence().seq),
                     "placeholder-depends-on-case")
     return True
+
+
+def _illegal(st, ent):
+    try:
+        ent._match
+    except st.errors.IllegalSite:
+        return True
+    except st.errors.InvalidSequence:
+        return False
+    return False
 
 
 MARK = ["AAAC", "CCG", "GT", "TGCAT"]
@@ -123,6 +139,16 @@ def obligations(tier, seed):
                 continue  # the largest structures (EcoFlex/MoClo cassette vectors, BtgZI) are left to the thorough tier
             obs.append(Ob("typing %s n=%d" % (label, n), ob_typing, dict(params, n=n), samples=3, cost=n ** 3,
                           group="typing " + label))
+    from symx import loader
+
+    rst = loader.real_stack()
+    for e in (["BsaI"] if tier == "quick" else ["BsaI", "BbsI", "SapI"]):
+        g = Geometry(rst.enzyme(e))
+        F = fixed_letters(generic_class(rst, "vector", e).structure())
+        n = F + g.L
+        obs.append(Ob("typing generic vector over %s n=%d (room for a third site in the placeholder)" % (e, n), ob_typing,
+                      dict(src="generic", role="vector", enzyme=e, n=n, third=True), samples=3, cost=n ** 3 * 2,
+                      expect_witness=("illegal-site", "no-illegal-site"), group="third-site " + e))
     for m in range(1, tier_pick(tier, 3, 4) + 1):
         obs.append(Ob("assembly with mixed-case overhangs m=%d" % m, ob_assembly, dict(m=m), samples=10, cost=30 ** m,
                       expect_witness=("product",)))
